@@ -85,6 +85,11 @@ C = {
    "(the shuffle is clock seeded); the contacts are observed as dials on the simulated network and must be exactly one per distinct entry. Thin use of the simulator (clock + network "
    "observation); the /regex/ filter is unreachable together with a list in this tree and not covered.",
    "deterministic simulation: simulated clock epoch + dial recording on the simulated network, set-equality oracle"),
+ "C17": ("exploration", "5 C17",
+   "Seeded histories of consecutive client runs against SSH servers with individual host keys on the simulated network, generated known_hosts files (plain, hashed, multi-host, markers, "
+   "wrong keys, comments), scripted user answers and the batching timer on the fake clock; servers record sessions: a session without trust (known_hosts per x/crypto, approval, trust-all) "
+   "is a violation, and after each run unrelated known_hosts lines must survive verbatim and new hosts be recorded.",
+   "deterministic simulation: multi-run histories with scripted user and simulated clock/network, trust-rule + line-preservation oracle"),
 }
 
 checks = []
@@ -111,7 +116,7 @@ na = []
 for pid in ids:
     if pid in C:
         continue
-    na.append({"property_id": pid, "reason": NA.get(pid, "check not built yet (framework under construction; see DESIGN.md §5 for the planned design)")})
+    na.append({"property_id": pid, "reason": NA.get(pid, "not claimed")})
 
 m = {
  "version": 1,
